@@ -59,9 +59,6 @@ LEVEL_NOTE = ('per instantiation (element type, vector ABI, operation, ISA flags
 L64 = Ty('int64', 'int64_t', 64, 'int')      # Fastor's Int64 (int64_t = long on this target; vf.I64 is long long)
 CPPT = {'int': 'int32_t', 'int64': 'int64_t', 'float': 'float', 'double': 'double'}
 HAS_AVX = ('avx', 'avx2', 'avx512')
-# SAT back end: MiniSat (cbmc's default) does not return from its second incremental call on several of these tiny instances
-# (3.5k clauses; stuck in Solver::pickBranchLit); CaDiCaL decides the same instances in 0.2 s.
-SOLVER = 'cadical'
 
 # ----------------------------------------------------------------------------------------------------------------------
 # vector types
@@ -100,9 +97,7 @@ def cid(fam, vt, cfg, extra=''):
     return 'C08/%s/%s/%s%s/%s' % (fam, vt.ty.name, vt.tag, ('/' + extra) if extra else '', cfg.tag())
 
 def mk(fam, vt, cfg, body, bufs, ens, mode='SYM', extra='', **kw):
-    c = Case(cid(fam, vt, cfg, extra), 'C08', vt.decl() + body, bufs, ens, mode, cfg, **kw)
-    c.solver = SOLVER
-    return c
+    return Case(cid(fam, vt, cfg, extra), 'C08', vt.decl() + body, bufs, ens, mode, cfg, **kw)
 
 def heavy_case(c):
     c.form = 'harness'; c.timeout = 1200
@@ -348,11 +343,6 @@ def float_ops(vt, P1, P0, full, rng):
     # go straight to the assertion form with a longer budget, and the quick tier keeps only the vector-vector forms
     heavy = n >= 16
     uf = lambda *a, **kw: heavy_case(lanewise(*a, mode='UF', **kw)) if heavy else lanewise(*a, mode='UF', **kw)
-    # The generic template stores through std::copy; on P0 that stays a memmove whose length is a difference of ptrtoint values,
-    # and cbmc's memmove model then drops the last element in assertion form (spurious lane failure, reproduced on a 15-line C
-    # file).  Its UF cases therefore use the optimised pipeline, where the copy is a constant-length memcpy; every case is a
-    # single operation (or a*b+c), so there is nothing for instcombine to re-associate.
-    if vt.generic: P0 = P1
     for op, sym in (('add', '+'), ('sub', '-'), ('mul', '*'), ('div', '/')):
         for fname, ex, nin, sc, ip in (forms if full else forms[:1] + ([] if heavy else [rng.choice(forms[1:])])):
             out.append(uf('%s-%s' % (op, fname), vt, P0, ex % sym, arith_spec(op, fname), nin=nin, scalar=sc, inplace=ip))
@@ -470,6 +460,5 @@ def cases(tier, seed):
     return res
 
 def evidence_extra(tier):
-    return {'sat_backend_note': 'C08 cases run cbmc with --sat-solver cadical (MiniSat does not return on several of these small instances)',
-            'not_decided': ['rcp/rsqrt relative error bounds', 'product()', 'integer division', 'complex SIMD vectors',
+    return {'not_decided': ['rcp/rsqrt relative error bounds', 'product()', 'integer division', 'complex SIMD vectors',
                             'rounding of float sum()/dot() (proved: each lane / product exactly once)']}
